@@ -49,6 +49,7 @@ type mpEnvT struct {
 	failCreate bool
 	failOpen   bool
 	failClose  bool
+	body       io.ReadCloser // what the multipart reader reads from
 }
 
 type mpPartReader struct {
@@ -58,11 +59,37 @@ type mpPartReader struct {
 
 var mpEnv *mpEnvT
 
+// like the real one, the multipart reader reads from the body the request
+// holds at the moment MultipartReader is called
+//
 //sym:stub (*net/http.Request).MultipartReader
-func Stub_MultipartReader(r *http.Request) (*multipart.Reader, error) { return &multipart.Reader{}, nil }
+func Stub_MultipartReader(r *http.Request) (*multipart.Reader, error) {
+	mpEnv.body = r.Body
+	return &multipart.Reader{}, nil
+}
+
+// mpLimited is the stub's MaxBytesReader: a budget that the part reads of a
+// multipart reader created over it consume.
+type mpLimited struct {
+	io.ReadCloser
+	left int64
+}
 
 //sym:stub net/http.MaxBytesReader
-func Stub_MaxBytesReader(w http.ResponseWriter, r io.ReadCloser, n int64) io.ReadCloser { return r }
+func Stub_MaxBytesReader(w http.ResponseWriter, r io.ReadCloser, n int64) io.ReadCloser {
+	return &mpLimited{ReadCloser: r, left: n}
+}
+
+// mpConsume charges k body bytes to the limit in front of the multipart reader, if any.
+func mpConsume(k int) error {
+	if lim, ok := mpEnv.body.(*mpLimited); ok {
+		lim.left -= int64(k)
+		if lim.left < 0 {
+			return errors.New("http: request body too large")
+		}
+	}
+	return nil
+}
 
 //sym:stub (*mime/multipart.Reader).NextPart
 func Stub_NextPart(r *multipart.Reader) (*multipart.Part, error) {
@@ -102,6 +129,9 @@ func Stub_PartRead(p *multipart.Part, d []byte) (int, error) {
 	}
 	n := copy(d, r.p.data[r.off:limit])
 	r.off += n
+	if err := mpConsume(n); err != nil {
+		return 0, err
+	}
 	return n, nil
 }
 
@@ -282,6 +312,10 @@ func Harness_C10_multipartForm() {
 	lay := layouts[li]
 	spill := zzsym.Choice("spill", 2) == 1
 	tooLarge := zzsym.Choice("toolarge", 4) == 3
+	chunked := zzsym.Choice("chunked", 2) == 1 // no Content-Length: only the reader in front of the body can enforce the limit
+	if chunked && spill {
+		zzsym.Assume(false) // without a Content-Length files are always held in memory: nothing spills
+	}
 	mpEnv = &mpEnvT{parts: lay.parts, readers: map[*multipart.Part]*mpPartReader{}, handles: map[*os.File]*mpHandle{}}
 	if spill {
 		osf := zzsym.Choice("osfault", 4)
@@ -316,6 +350,9 @@ func Harness_C10_multipartForm() {
 	r := &http.Request{Method: "POST", Header: http.Header{}, URL: &url.URL{Path: "/"}, Body: io.NopCloser(strings.NewReader(body))}
 	r.Header.Set("Content-Type", "multipart/form-data; boundary="+boundary)
 	r.ContentLength = int64(len(body))
+	if chunked {
+		r.ContentLength = -1
+	}
 	t := MultipartForm{MaxUploadSize: 1 << 20, MaxMemory: 1 << 20}
 	if spill {
 		t.MaxMemory = 1
@@ -358,8 +395,8 @@ func Harness_C10_multipartForm() {
 	}
 	if tooLarge {
 		zzsym.Assert(len(ex.seen) == 0, "an over-limit request executes nothing")
-		if zzsym.Symbolic() {
-			zzsym.Assert(mpEnv.nextParts == 0, "the size limit is enforced before any part is read")
+		if zzsym.Symbolic() && !chunked {
+			zzsym.Assert(mpEnv.nextParts == 0, "with a Content-Length the size limit is enforced before any part is read")
 		}
 		zzsym.Reach("form.toolarge")
 		return
